@@ -6,16 +6,18 @@ eval_path(graph, (s, p, o)) is the single callee: it returns the pairs of rel(p)
 "bound" means `is not None` (NOT Python truthiness).
   [[~p]]    = converse of [[p]]
   [[p|q|..]] = union of the [[.]] of the alternatives
-SequencePath (recursive helper closures over list slices), MulPath (closure) and NegatedPath are bounded only.
+  [[!(p1|..|pn)]] = { (s, o) | some triple (s, p, o) of the graph has p not in {p1..pn} }   (forward members only)
+SequencePath (recursive helper closures over list slices), MulPath (closure) and negated sets with inverse members
+(open finding C11-negated-set-inverse-members) are bounded only.
 """
 from __future__ import annotations
 
 import z3
 
-from pyvc.core import BOOL, INT, SV, TObj, TOpt, TTuple, TList, option_sort, Snapshot, SymIter, declare_class
-from pyvc.interp import Builtin
+from pyvc.core import BOOL, INT, SV, TObj, TOpt, TTuple, TList, TUn, option_sort, Snapshot, SymIter, declare_class
+from pyvc.interp import Builtin, LoopSpec, ClassRef
 from pyvc.model import Contract, GenSpec, Param
-from contracts.rdfmodel import RDFModel, TERM, TermSort
+from contracts.rdfmodel import RDFModel, TERM, TRIPLE, TermSort, tr_s, tr_p, tr_o, kind, K_URIREF
 
 REL = "rdflib/paths.py"
 OT = option_sort(TermSort)
@@ -23,6 +25,17 @@ OTERM = TOpt(TERM)
 PAIR = TTuple(TERM, TERM, name="EndPair")
 rel = z3.Function("path_relation", z3.IntSort(), TermSort, TermSort, z3.BoolSort())
 alts = z3.Function("alternative_members", z3.IntSort(), z3.ArraySort(z3.IntSort(), z3.BoolSort()))
+
+
+# members of a negated property set: IRIs or InvPath objects
+ArgSort = z3.DeclareSort("NegArg")
+NEGARG = TUn("NegArg")
+arg_is_uri = z3.Function("negarg_is_uri", ArgSort, z3.BoolSort())
+arg_uri = z3.Function("negarg_uri", ArgSort, TermSort)
+arg_is_inv = z3.Function("negarg_is_inv", ArgSort, z3.BoolSort())
+arg_inv = z3.Function("negarg_inv_arg", ArgSort, TermSort)
+neg_args = z3.Function("negated_members", z3.IntSort(), z3.ArraySort(ArgSort, z3.BoolSort()))
+holds = z3.Function("graph_holds", z3.IntSort(), TRIPLE.sort(), z3.BoolSort())
 
 
 def restricted(s, o, a, b):
@@ -38,6 +51,11 @@ class PathModel(RDFModel):
         declare_class("InvPath", fields={"arg": INT})
         declare_class("AlternativePath", fields={})
         declare_class("Graph", fields={})
+        declare_class("NegatedPath", fields={})
+        self.globals["InvPath"] = ClassRef("InvPath", isinstance_fn=lambda it, v: (
+            z3.And(z3.Not(arg_is_uri(v.z)), arg_is_inv(v.z)) if v.ty.sort() == ArgSort else False))
+        self.globals["URIRef"] = ClassRef("URIRef", isinstance_fn=lambda it, v: (
+            arg_is_uri(v.z) if v.ty.sort() == ArgSort else (kind(v.z) == K_URIREF if v.ty.sort() == TermSort else False)))
         self.globals["eval_path"] = Builtin("eval_path", self.b_eval_path)
         self.assumptions += ["eval_path(graph, (s, p, o)) returns exactly the pairs of [[p]] whose ends equal the non-None "
                              "s / o (contract of Graph.triples for IRIs - C01 - and of the other operators' eval, "
@@ -56,7 +74,43 @@ class PathModel(RDFModel):
         if isinstance(obj, SV) and isinstance(obj.ty, TObj) and obj.ty.cls == "AlternativePath" and name == "args":
             arr = alts(obj.z)
             return Snapshot(INT, lambda z: arr[z], False)
+        if isinstance(obj, SV) and isinstance(obj.ty, TObj) and obj.ty.cls == "NegatedPath" and name == "args":
+            arr = neg_args(obj.z)
+            return Snapshot(NEGARG, lambda z: arr[z], False)
+        if isinstance(obj, SV) and obj.ty.sort() == ArgSort and name == "arg":
+            return SV(TERM, arg_inv(obj.z))
         return NotImplemented
+
+    def str_format_percent(self, it, fmt, arg):
+        from pyvc.core import STR
+        return it.path.fresh_sv(STR, "msg")      # only used for exception messages
+
+    def contains(self, it, coll, x, node):
+        if isinstance(coll, SV) and isinstance(coll.ty, TObj) and coll.ty.cls == "Graph":
+            m = self.method(it, coll, "__contains__")
+            if m is not None:
+                if isinstance(x, tuple):
+                    # a set member used as a term is its IRI (members that are not IRIs never get here: the real code
+                    # tests isinstance(a, URIRef) first, and a.arg of an InvPath is a term already)
+                    x = tuple(SV(TERM, arg_uri(v.z)) if isinstance(v, SV) and v.ty.sort() == ArgSort else v for v in x)
+                return it.truthy(m(it, coll, [x], {}))
+        return NotImplemented
+
+    def un_isinstance(self, it, v, n):
+        if v.ty.sort() == ArgSort:
+            if n == "URIRef":
+                return arg_is_uri(v.z)
+            if n == "InvPath":
+                return z3.And(z3.Not(arg_is_uri(v.z)), arg_is_inv(v.z))
+            return False
+        return super().un_isinstance(it, v, n)
+
+    def cross_eq(self, it, a, b):
+        # Identifier.__eq__ between a predicate and a member of the set: equal iff the member is that IRI
+        for x, y in ((a, b), (b, a)):
+            if isinstance(x, SV) and isinstance(y, SV) and x.ty.sort() == TermSort and y.ty.sort() == ArgSort:
+                return z3.And(arg_is_uri(y.z), arg_uri(y.z) == x.z)
+        return super().cross_eq(it, a, b)
 
     def declare(self):
         G = TObj("Graph")
@@ -82,5 +136,61 @@ class PathModel(RDFModel):
                                             "ends that are not None"))
 
 
+def declare_negated(M):
+    G = TObj("Graph")
+    PAT = TTuple(OTERM, OTERM, OTERM, name="Pattern")
+
+    # graph.triples((s, None, o)) on IRIs-as-predicate patterns: the C01 contract, over the uninterpreted `holds`
+    def tr_member(c, z):
+        sp, pp, op = c.args["triple"]
+        def comp(v, x):
+            if v is None:
+                return z3.BoolVal(True)
+            if isinstance(v.ty, TOpt):
+                return z3.Or(OT.is_none(v.z), OT.get(v.z) == x)
+            return v.z == x
+        return z3.And(holds(c.self.z, z), comp(sp, tr_s(z)), comp(pp, tr_p(z)), comp(op, tr_o(z)))
+    M.add(Contract("C01", "rdflib/graph.py", "Graph.triples", [Param("triple", PAT)], self_ty=G,
+                   gen=GenSpec(TRIPLE, tr_member, distinct=True), modifies=[], trusted=True,
+                   note="exactly the matching triples of the graph (C01 contract of Graph.triples, non-path predicate)"))
+    M.add(Contract("C01", "rdflib/graph.py", "Graph.__contains__", [Param("triple", TRIPLE)], ret=BOOL, self_ty=G,
+                   post=lambda c: c.path.inject(BOOL, c.result) == holds(c.self.z, c.path.inject(TRIPLE, c.args["triple"])),
+                   modifies=[], trusted=True, note="membership (C01 contract)"))
+
+    def pre(c):
+        a = z3.Const("na", ArgSort)
+        # forward members only: a set with inverse members is the open finding C11-negated-set-inverse-members
+        return z3.And(c.self.z > 0, z3.ForAll([a], z3.Implies(neg_args(c.self.z)[a], arg_is_uri(a))))
+
+    def member(c, z):
+        a_, b_ = PAIR.proj(0, z), PAIR.proj(1, z)
+        pz = z3.Const("np", TermSort)
+        a = z3.Const("na2", ArgSort)
+        s, o = c.path.inject(OTERM, c.args["subj"]), c.path.inject(OTERM, c.args["obj"])
+        g = c.args["graph"].z
+        return z3.And(restricted(s, o, a_, b_),
+                      z3.Exists([pz], z3.And(holds(g, TRIPLE.mk(a_, pz, b_)),
+                                             z3.ForAll([a], z3.Implies(neg_args(c.self.z)[a], arg_uri(a) != pz)))))
+
+    def inner_inv(lc):
+        # every member seen so far differs from the predicate of the triple at hand
+        p = lc.path.inject(TERM, lc.env["p"])
+        a = z3.Const("ia", ArgSort)
+        return z3.ForAll([a], z3.Implies(lc.done[a], z3.Not(z3.And(arg_is_uri(a), arg_uri(a) == p))))
+
+    def inner_breaks(lc, x):
+        p = lc.path.inject(TERM, lc.env["p"])
+        return z3.And(arg_is_uri(x), arg_uri(x) == p)
+    M.add(Contract("C11", REL, "NegatedPath.eval",
+                   [Param("graph", G), Param("subj", OTERM, default=None), Param("obj", OTERM, default=None)],
+                   self_ty=TObj("NegatedPath"), pre=pre,
+                   gen=GenSpec(PAIR, member, distinct=False, complete=True), modifies=[],
+                   loops={1: LoopSpec(inner_inv, breaks=inner_breaks, var_types={"a": "poison"}, fingerprint="self.args")},
+                   note="[[!(p1|..|pn)]] (forward members): the pairs (s, o) linked by a triple whose OWN predicate is "
+                        "none of p1..pn, restricted to the ends that are not None"))
+
+
 def build():
-    return PathModel()
+    m = PathModel()
+    declare_negated(m)
+    return m
